@@ -26,6 +26,7 @@ func ccDrive(c *h.Ctx, prop string, cases []ccGenCase, casesFile string, keep fu
 		}
 		sc := gc.Sc
 		t0 := time.Now()
+		c.Current(map[string]any{"scenario": sc, "family": gc.Family, "what": ccDescribe(sc)})
 		obs := ccRun(sc, false)
 		if d := time.Since(t0); d > 300*time.Millisecond && os.Getenv("CC_SLOW") != "" {
 			fmt.Fprintf(os.Stderr, "slow %v: %s\n", d, ccDescribe(sc))
@@ -51,6 +52,9 @@ func ccDrive(c *h.Ctx, prop string, cases []ccGenCase, casesFile string, keep fu
 		}
 		// ---- direct oracle
 		vs := ccOracle(sc, obs)
+		if obs.CloseHung {
+			vs = append(vs, ccVerdict{"hang/close", "the final Client.Close() did not return within 2 s"})
+		}
 		for _, o := range obs.Steps {
 			if o.ExpectOK && o.Res == ccRErr {
 				vs = append(vs, ccVerdict{"no-recovery", "a call failed although the client is open, the dialer succeeds and no failure is left in the script"})
@@ -100,6 +104,15 @@ func ccReplayCases(c *h.Ctx) ([]ccGenCase, bool, error) {
 		return nil
 	}
 	if m, _ := c.Replay["case"].(map[string]any); m != nil && m["scenario"] != nil {
+		// a case after which the process died: the cases run just before it come first (a goroutine they left
+		// behind may be the one that panicked)
+		if prev, _ := c.Replay["previous"].([]any); prev != nil {
+			for _, p := range prev {
+				if pm, _ := p.(map[string]any); pm != nil && pm["scenario"] != nil {
+					_ = add(pm["scenario"])
+				}
+			}
+		}
 		return out, true, add(m["scenario"])
 	}
 	// a broken correspondence without a failing input: replay the first disagreeing scenarios
